@@ -8,6 +8,7 @@ import vlib
 PKG = "internal/filtering"
 FILES = ["zz_verif_common_test.go", "zz_verif_c17_test.go"]
 ENTRIES = ["add", "seturl", "inject"]
+SHARDS = 6
 ACTIONS = ["AddStep", "SetURLStep", "InjectStep", "RefreshStep", "RemoveStep"]
 
 
@@ -15,19 +16,35 @@ def classify(rec):
     return None  # no known findings for C17
 
 
-def go_replay(ctx, tables, vectors, tag):
-    """Run TestZZVerifC17Replay on the vectors (each with entries/var/idx)."""
+def go_replay(ctx, tables, vectors, tag, shards=SHARDS):
+    """Run TestZZVerifC17Replay on the vectors (each with entries/var/idx),
+    split over several processes of the one test binary."""
     vin, vout = ctx.path("c17_in_%s.ndjson" % tag), ctx.path("c17_out_%s.ndjson" % tag)
     work = ctx.path("c17_work_%s" % tag)
     os.makedirs(work, exist_ok=True)
-    vlib.write_ndjson(vin, [tables] + vectors)
-    rc, out = ctx.go_test(PKG, FILES, "^TestZZVerifC17Replay$",
-                          env={"VERIF_IN": vin, "VERIF_OUT": vout, "VERIF_C17_WORK": work}, timeout=1500)
-    rows = vlib.read_ndjson(vout)
-    summ = [r for r in rows if r.get("kind") == "summary"]
-    if rc != 0 or not summ:
-        raise vlib.Inconclusive("C17 replay harness did not complete (rc=%s):\n%s" % (rc, out[-3000:]))
-    return rows, summ[0]
+    shards = max(1, min(shards, len(vectors)))
+    for k in range(shards):
+        vlib.write_ndjson("%s.%d" % (vin, k), [tables] + vectors[k::shards])
+    rc, out = ctx.go_test(PKG, FILES, "^TestZZVerifC17Replay$", timeout=1700, go_timeout="28m",
+                          env={"VERIF_IN": vin, "VERIF_OUT": vout, "VERIF_C17_WORK": work,
+                               "VERIF_C17_SHARDS": str(shards)})
+    rows, summs = [], []
+    for k in range(shards):
+        part = vlib.read_ndjson("%s.%d" % (vout, k))
+        summs += [r for r in part if r.get("kind") == "summary"]
+        rows += [r for r in part if r.get("kind") != "summary"]
+    if rc != 0 or len(summs) != shards:
+        raise vlib.Inconclusive("C17 replay harness did not complete (rc=%s, %d/%d shards):\n%s" % (
+            rc, len(summs), shards, out[-3000:]))
+    summ = {"per_entry": {}}
+    for s in summs:
+        for key, val in s.items():
+            if key == "per_entry":
+                for e, n in val.items():
+                    summ["per_entry"][e] = summ["per_entry"].get(e, 0) + n
+            elif key != "kind":
+                summ[key] = summ.get(key, 0) + val
+    return rows, summ
 
 
 def check_rows(ctx, rows):
@@ -38,6 +55,64 @@ def check_rows(ctx, rows):
             ctx.disagreement(classify(r), r, "%s of %r under patterns %s: %s" % (
                 r["entry"], r["url"], json.dumps(r.get("patterns")), r["what"]))
     soft = [r for r in rows if r.get("kind") in ("mismatch", "instrument", "panic")]
+    return soft
+
+
+def go_trace(ctx):
+    """Direction B: record a trace from the real code, let TLC judge it."""
+    tout = ctx.path("c17_trace.ndjson")
+    work = ctx.path("c17_work_b")
+    os.makedirs(work, exist_ok=True)
+    rc, out = ctx.go_test(PKG, FILES, "^TestZZVerifC17Trace$", timeout=1200,
+                          env={"VERIF_OUT": tout, "VERIF_C17_WORK": work})
+    rows = vlib.read_ndjson(tout)
+    if rc != 0 or len(rows) < 100:
+        raise vlib.Inconclusive("C17 trace driver did not complete (rc=%s, %d lines):\n%s" % (rc, len(rows), out[-3000:]))
+    r = ctx.tlc("TraceSafePath", "TraceSafePath.cfg", workers=1, extra_files=[(tout, "trace.ndjson")], timeout=1200)
+    if not r["vectors"]:
+        raise vlib.Inconclusive("trace spec produced no verdict")
+    verdict = r["vectors"][-1]
+    if verdict["n"] != len(rows):
+        raise vlib.Inconclusive("trace spec consumed %s of %d lines" % (verdict["n"], len(rows)))
+    return rows, verdict["bad"]
+
+
+def redo(ctx, line):
+    """Re-execute one trace step alone; returns the real paths it opened."""
+    c = line["concrete"]
+    req = {"root": c["root"], "cwd": c["cwd"], "patterns": c["patterns"], "act": line["act"], "url": c["url"]}
+    rout = ctx.path("c17_redo.ndjson")
+    if os.path.exists(rout):
+        os.remove(rout)
+    rc, out = ctx.go_test(PKG, FILES, "^TestZZVerifC17Redo$", timeout=600,
+                          env={"VERIF_OUT": rout, "VERIF_C17_REDO": json.dumps(req)})
+    rows = [r for r in vlib.read_ndjson(rout) if r.get("kind") == "redo"]
+    if rc != 0 or not rows:
+        raise vlib.Inconclusive("C17 redo did not complete:\n" + out[-2000:])
+    return rows[0]
+
+
+def judge_trace(ctx, trows, bad):
+    """Classify the lines TLC rejected; only reproduced 'unsafe' ones count."""
+    soft = []
+    for b in bad[:20]:
+        line = trows[b["i"] - 1]
+        if b["kind"] != "unsafe":
+            soft.append((b, line))
+            continue
+        if line["act"] not in ("add", "seturl", "refresh", "inject"):
+            soft.append((b, line))
+            continue
+        again = redo(ctx, line) if line["act"] != "refresh" else None
+        suspicious = ["/" + "/".join(p) for p in line["opened"] + line["stored"]]
+        if again is not None and not (set(again["opened"]) & set(suspicious)):
+            soft.append(({"i": b["i"], "kind": "not-reproduced"}, line))
+            continue
+        rec = {"trace_line": b["i"], "line": line, "redo": again}
+        ctx.disagreement(classify(rec), rec, "trace line %d (%s of %r under patterns %s) opened/stored %s: "
+                         "rejected by TraceSafePath as unsafe" % (
+                             b["i"], line["act"], line["concrete"]["url"], json.dumps(line["concrete"]["patterns"]),
+                             suspicious))
     return soft
 
 
@@ -88,6 +163,9 @@ def run(ctx):
     if len(tables) != 1 or len(vectors) < 10000:
         raise vlib.Inconclusive("vector generation incomplete: %d tables, %d vectors" % (len(tables), len(vectors)))
     tables = tables[0]
+    # TLC's workers print in a run-dependent order: fix it, so that a seed
+    # always selects and spells the same vectors.
+    vectors.sort(key=lambda v: json.dumps([v["cfg"], v["loc"]], sort_keys=True))
     sel = prepare(ctx, vectors, rng)
     ctx.log("replaying %d of %d vectors (%d scenarios)" % (len(sel), len(vectors), sum(len(v["entries"]) for v in sel)))
     rows, summ = go_replay(ctx, tables, sel, "a")
@@ -103,13 +181,26 @@ def run(ctx):
     if summ["positive"] < 20 or summ["accepted"] < 20:
         raise vlib.Inconclusive("vacuous: only %d steps opened a permitted file, %d accepted" % (
             summ["positive"], summ["accepted"]))
+    # Direction B.
+    trows, tbad = go_trace(ctx)
+    tsoft = judge_trace(ctx, trows, tbad)
+    if tsoft:
+        b, line = tsoft[0]
+        raise vlib.Inconclusive("trace: %d lines rejected for model/harness reasons, first: line %s kind %s: %s" % (
+            len(tsoft), b["i"], b["kind"], json.dumps(line)[:1500]))
+    tsteps = [r for r in trows if r["act"] != "reset"]
+    topened = sum(1 for r in tsteps if r["opened"])
+    if topened < 10:
+        raise vlib.Inconclusive("vacuous: only %d trace steps opened a file" % topened)
     nt = sum(1 for v in sel if v["add"] or v["refresh"])
-    samples = [sel[0], sel[len(sel) // 2], sel[-1]]
+    samples = [sel[0], sel[len(sel) // 2], sel[-1], {"trace_line": next(r for r in tsteps if r["opened"])}]
     cov = {
-        "traces_validated_against_impl": summ["n"],
+        "traces_validated_against_impl": summ["n"] + sum(1 for r in trows if r["act"] == "reset"),
+        "trace_epochs": sum(1 for r in trows if r["act"] == "reset"), "trace_lines": len(trows),
+        "trace_lines_rejected": len(tbad), "trace_steps_that_opened_a_file": topened,
         "vectors_generated": len(vectors), "vectors_replayed": len(sel),
         "scenarios_replayed": summ["n"], "steps_observed": summ["steps"],
-        "evaluations": summ["n"], "distinct_nontrivial": nt,
+        "evaluations": summ["n"] + len(tsteps), "distinct_nontrivial": nt,
         "rule": "one vector per reachable state of SafePath.gen.cfg = (pattern list, location); each is replayed through "
                 "up to three entry points (add_url, set_url, configuration file + refresh); non-trivial = the spec "
                 "permits opening a file for it",
